@@ -27,17 +27,23 @@ RULE = ('one case = one evaluation point (geometry, motion parameter, detector p
         'non-trivial when the geometry is not the default-configured one or the parameters are '
         'non-zero; distinct = distinct (class, construction, detector kind, option flags, '
         'relation / call shape class) signatures.')
-TRUSTED = ['NumPy cos/sin/sqrt/einsum/broadcasting (the model receives the float cos/sin values '
-           'and is polynomial in them; normalisation by 1/sqrt is applied by the harness to the '
-           'model\'s exact vector and squared norm)',
+TRUSTED = ['NumPy cos/sin/einsum/broadcasting (the model receives the float cos/sin values and is '
+           'polynomial in them); the driver executes the model\'s own normalisation v/sqrt(v.v) with a '
+           '100-bit Newton square root',
            'read-out of the stored attributes of the real geometry object (axis, det_pos_init, '
            'src_to_det_init, detector.axes, radii, translation) as the model\'s inputs']
 ASSUMPTIONS = ['floating-point rounding is outside the model: agreement is required to '
                '1e-12*(1+scale) (general stream); theorems are exact over any commutative ring/field',
-               'cos^2+sin^2=1 and unit-length stored axes are hypotheses of the theorems; the real '
-               'code satisfies them up to rounding (checked by the oracle to 1e-12)',
+               'cos^2+sin^2=1, unit-length stored axes and sqrt(s)^2 = s are hypotheses of the theorems; the '
+               'real code / the executed square root satisfy them up to rounding (checked to 1e-12)',
+               'transform_system treats a given principal vector within np.allclose (atol 1e-8) of the default '
+               'as the default: for such inputs the derived frame is compared with tolerance 4*angle instead '
+               'of 1e-12; principal vectors opposite or within 0.045 rad of opposite to the default are outside '
+               'the frame model (ill-conditioned 1/(1+<u,v>)) and checked by the frame oracle only',
                'partition slicing itself (which angles a slice keeps) is C14; here it is only '
-               'checked on the real code that slice.angles == angles[slice]']
+               'checked on the real code that slice.angles == angles[slice]',
+               'Fan/Cone __getitem__, frommatrix det_point_position/det_to_src, vectorised VALUES (the shape has a '
+               'theorem), factory corner coverage and the helical Tam-Danielsson window are oracle-only']
 
 TOL = 1e-12
 PI2 = 2 * np.pi
@@ -182,6 +188,30 @@ def gen_spec(rng, cls, how, variant):
                     a, b = orth_pair(rng)
                     s['axes_init'] = [a, b]
     sp = variant.get('special')
+    if variant.get('cb0'):
+        s['cb0'] = 1
+    if sp == 'parallel_d':
+        # source and detector on the rotation axis: the constructor must refuse
+        ax = s.get('axis', [0.0, 0.0, 1.0])
+        k = rng.choice([1.0, -2.0, 0.5])
+        s['s2d'] = [k * x for x in ax]
+        s['expect_reject'] = 1
+        sp = None
+    if sp in ('near', 'nearneg') and how == 'ctor':
+        # principal vector at a tiny angle delta from the default / from its negative: the band
+        # between the collinear branch and the generic one
+        delta = variant['delta']
+        sg = 1.0 if sp == 'near' else -1.0
+        s['delta'] = delta
+        if cls == 'par2':
+            s['pos'] = [delta, sg]
+        elif cls == 'fan':
+            s['s2d'] = [-delta, sg * 2.0]
+        elif cls == 'par3e':
+            s['pos'] = [delta, sg, -2 * delta]
+        else:
+            s['axis'] = [0.0, delta, sg] if rng.random() < 0.5 else [delta, -delta, sg * 1.5]
+        sp = None
     if sp and how == 'ctor':
         # collinear branches of transform_system / rotation_matrix_from_to: the principal vector
         # is a positive multiple of the default ("dilation only") or opposite to it
@@ -220,9 +250,17 @@ def gen_spec(rng, cls, how, variant):
     return s
 
 
+WRAPPED = []   # (array handed to the last constructor call, copy taken before the call)
+
+
+def caller_arrays_changed():
+    return [(b.tolist(), a.tolist()) for a, b in WRAPPED if not np.array_equal(a, b)]
+
+
 def build(s):
     """Construct the real geometry from a spec."""
     import odl
+    del WRAPPED[:]
     cls = s['cls']
     ndim = 2 if cls in ('par2', 'fan') else 3
     if cls == 'par3e':
@@ -252,17 +290,25 @@ def build(s):
         if 'pitch' in s:
             kw['pitch'] = s['pitch']
             kw['offset_along_axis'] = s['off']
+    if s.get('cb0'):
+        kw['check_bounds'] = False
     if s['how'] == 'frommatrix':
         M = np.array(s['Q'], dtype=float)
         if 't' in s:
             M = np.hstack([M, np.array(s['t'], dtype=float)[:, None]])
+        WRAPPED.append((M, M.copy()))
         if cls in ('fan', 'cone'):
             return klass.frommatrix(apart, dpart, s['rs'], s['rd'], M, **kw)
         return klass.frommatrix(apart, dpart, M, **kw)
+
+    def wrap(v):
+        if not s.get('ndarray_args'):
+            return tuple(v)
+        a = np.array(v, dtype=float)
+        WRAPPED.append((a, a.copy()))
+        return a
     if 't' in s:
-        kw['translation'] = list(s['t'])
-    wrap = (lambda v: np.array(v, dtype=float)) if s.get('ndarray_args') else \
-        (lambda v: tuple(v))
+        kw['translation'] = wrap(s['t']) if s.get('ndarray_args') else list(s['t'])
     if cls == 'par2':
         if 'axis_init' in s:
             kw['det_axis_init'] = wrap(s['axis_init'])
@@ -313,6 +359,12 @@ def all_variants(cls, quick):
     out.append(('ctor', dict(pos=1, translation=1, ndarray_args=1)))
     out.append(('ctor', dict(special='neg', translation=1)))
     out.append(('ctor', dict(special='scaled')))
+    for dl in (1e-9, 3e-8, 1e-7, 1e-5):
+        out.append(('ctor', dict(special='near', translation=1, delta=dl)))
+    for dl in (3e-8, 1e-6):
+        out.append(('ctor', dict(special='nearneg', delta=dl)))
+    out.append(('ctor', dict(cb0=1, pos=1, translation=1)))
+    out.append(('frommatrix', dict(cb0=1, translation=1)))
     for fm in [dict(), dict(translation=1), dict(scaled=1, translation=1)]:
         out.append(('frommatrix', dict(fm)))
     if cls == 'par3e':
@@ -321,7 +373,8 @@ def all_variants(cls, quick):
         ext = []
         for h, v in out:
             ext.append((h, v))
-        ext += [('ctor', dict(det='circ')), ('ctor', dict(det='circ', pos=1, axes=1,
+        ext += [('ctor', dict(det='circ', cb0=1)),
+                ('ctor', dict(det='circ')), ('ctor', dict(det='circ', pos=1, axes=1,
                                                            translation=1)),
                 ('ctor', dict(shifts=1)), ('ctor', dict(shifts=1, pos=1, translation=1,
                                                         det='circ')),
@@ -336,7 +389,9 @@ def all_variants(cls, quick):
                     ('ctor', dict(det=det, axes=1, pos=1, axis=1, translation=1)),
                     ('frommatrix', dict(det=det, translation=1)),
                     ('frommatrix', dict(det=det, perm=1, translation=1))]
-        ext += [('ctor', dict(det='cyl', special='neg', pitch=1)),
+        ext += [('ctor', dict(special='parallel_d')), ('ctor', dict(special='parallel_d', axis=1)),
+                ('ctor', dict(det='cyl', cb0=1, translation=1)),
+                ('ctor', dict(det='cyl', special='neg', pitch=1)),
                 ('ctor', dict(pitch=1)), ('ctor', dict(pitch=1, axis=1, translation=1)),
                 ('ctor', dict(shifts=1)), ('ctor', dict(shifts=1, pitch=1, axis=1, pos=1,
                                                         translation=1)),
@@ -348,7 +403,7 @@ def all_variants(cls, quick):
 
 
 def variant_sig(cls, how, v):
-    return (cls, how) + tuple(sorted(k for k in v if v[k]) ) + (v.get('det', 'flat'),
+    return (cls, how) + tuple(sorted(k for k in v if v[k])) + (v.get('delta', 0), v.get('det', 'flat'),
                                                                   v.get('neul', 0))
 
 
@@ -485,6 +540,9 @@ def impl_point(s, g, ang, dp):
     else:
         r['axes'] = guarded(lambda: g.det_axes(ang))
     r['surf'] = guarded(lambda: g.detector.surface(dp))
+    r['drv'] = guarded(lambda: g.detector.surface_deriv(dp))
+    r['nrm'] = guarded(lambda: g.detector.surface_normal(dp))
+    r['meas'] = guarded(lambda: g.detector.surface_measure(dp))
     return r
 
 
@@ -583,11 +641,32 @@ def oracle_point(s, g, ang, dp, r, tol):
             if abs(np.dot(n, ax)) > 1e-12:
                 bad.append(('parallel_dir_orth_axes', '<det_to_src, det_axis> = {!r}'.format(
                     float(np.dot(n, ax)))))
+        # default detector orientation (axes not given): the rays come from the far side of the
+        # origin, det_to_src = -R * (det_pos_init - translation) / |.|
+        if s['how'] == 'ctor' and 'axis_init' not in s and 'axes_init' not in s and \
+                not (cls == 'par3a' and 'pos' in s):
+            pv = np.asarray(g.det_pos_init, dtype=float) - np.asarray(g.translation, dtype=float)
+            ptol = 1e-12 + (4 * s['delta'] if s.get('delta', 1.0) <= 2e-8 else 0.0)
+            if not close(n, -R.dot(pv / np.linalg.norm(pv)), ptol):
+                bad.append(('parallel_dir_sign', 'det_to_src = {} but -R*(det_pos_init - translation)/|.| = {}'.format(
+                    n.tolist(), (-R.dot(pv / np.linalg.norm(pv))).tolist())))
         mid = g.det_params.mid_pt
         other = float(mid[0]) if ndim == 2 else tuple(float(x) for x in mid)
         st, n2 = guarded(lambda: g.det_to_src(ang, other))
         if st != 'ok' or not close(n, n2, 1e-12):
             bad.append(('parallel_dir_const', 'det_to_src differs between detector points'))
+    # surface_measure = |surface_deriv| (1d) resp. |deriv_0 x deriv_1| (2d); surface_normal is the
+    # unit vector orthogonal to the derivative(s)
+    dv = np.asarray(r['drv'][1], dtype=float).reshape(-1, ndim)
+    mexp = np.linalg.norm(dv[0]) if ndim == 2 else np.linalg.norm(np.cross(dv[0], dv[1]))
+    if np.shape(r['meas'][1]) != () or abs(float(r['meas'][1]) - mexp) > 1e-12 * (1 + mexp):
+        bad.append(('surface_measure', 'surface_measure({}) = {!r} but the derivative gives {!r}'.format(
+            dp, r['meas'][1], mexp)))
+    nv = np.asarray(r['nrm'][1], dtype=float)
+    if np.shape(nv) != (ndim,) or abs(np.linalg.norm(nv) - 1) > 1e-12 or \
+            any(abs(np.dot(nv, d)) > 1e-12 * (1 + np.linalg.norm(d)) for d in dv):
+        bad.append(('surface_normal', 'surface_normal({}) = {} is not a unit vector orthogonal to the '
+                    'surface derivative'.format(dp, np.asarray(nv).tolist())))
     # flat detectors: surface(u) = sum u_i * axes_i
     if s.get('det', 'flat') == 'flat':
         ia = np.asarray(g.detector.axis if ndim == 2 else g.detector.axes, dtype=float).reshape(-1, ndim)
@@ -666,13 +745,12 @@ def compare_point(s, g, ang, dp, r, m, tol):
             dis.append('src')
         if r['d2s'][0] != 'ok' or not close(r['d2s'][1], m['d2s'], tol):
             dis.append('d2s')
-    nsq = m['nsq'][0]
-    if nsq <= 0:
-        dis.append('nsq')
-    else:
-        mn = np.asarray(m['d2s']) / math.sqrt(nsq)
-        if r['d2sn'][0] != 'ok' or not close(r['d2sn'][1], mn, max(TOL, tol / max(1.0, math.sqrt(nsq)))):
-            dis.append('d2sn')
+    # normalised vectors: the driver executes the model's own normalisation (v / sqrt(v.v))
+    for k in ('d2sn', 'nrm'):
+        if r[k][0] != 'ok' or not close(r[k][1], m[k], 4 * TOL):
+            dis.append(k)
+    if r['drv'][0] != 'ok' or not close(r['drv'][1], m['drv'], tol):
+        dis.append('drv')
     return dis
 
 
@@ -777,6 +855,10 @@ def oracle_frame(s, g):
         return bad
     t = np.asarray(g.translation, dtype=float)
     tl = 1e-12
+    if s.get('delta', 1.0) <= 2e-8:
+        # transform_system treats a principal vector within np.allclose (atol 1e-8) of the default
+        # as the default ("dilation only"): the derived frame is then off by that angle
+        tl = 1e-12 + 4 * s['delta']
     if cls in ('par2', 'fan'):
         prin = (np.asarray(g.det_pos_init, dtype=float) - t) if cls == 'par2' else np.asarray(g.src_to_det_init, dtype=float)
         given = s.get('pos') if cls == 'par2' else s.get('s2d')
@@ -874,7 +956,11 @@ def run_frames(ctx, built):
     cases, lines = [], []
     for s, g in built:
         st, fc = guarded(lambda: frame_case(s, g))
-        if st != 'ok' or fc is None:
+        if st != 'ok':
+            ctx.violation('constructor frame {} attributes'.format(s['cls']), st,
+                          {'kind': 'construct', 'spec': jsonable_spec(s)})
+            continue
+        if fc is None:
             continue
         cases.append((s, fc[1]))
         lines.append(fc[0])
@@ -882,13 +968,20 @@ def run_frames(ctx, built):
     for (s, exp), ans in zip(cases, outs):
         desc = {'kind': 'construct', 'spec': jsonable_spec(s)}
         if ans == 'err:opposite':
+            # exactly opposite or within 0.045 rad of it: the model's division by 1 + <u, v> is
+            # ill-conditioned there; these inputs are checked by the frame oracle only
             ctx.hit('frame/opposite(oracle only)')
+            if 'delta' in s:
+                ctx.hit('frame/near-opposite')
             ctx.case((s['cls'], 'frame', 'opposite'))
             continue
         ctx.hit('frame/' + s['cls'])
+        if 'delta' in s:
+            ctx.hit('frame/near-default')
         ctx.case((s['cls'], 'frame') + tuple(sorted(exp)))
         m = parse_ans(ans)
-        if m is None or any(not close(m[k], v, 4e-12) for k, v in exp.items()):
+        ftol = 4e-12 + (4 * s['delta'] if s.get('delta', 1.0) <= 2e-8 else 0.0)
+        if m is None or any(not close(m[k], v, ftol) for k, v in exp.items()):
             ctx.disagree(desc, {k: np.asarray(v).tolist() for k, v in exp.items()}, ans, stream='frame')
 
 
@@ -896,14 +989,34 @@ def run_points(ctx, specs, npts):
     """pointwise correspondence + oracle"""
     cases, lines = [], []
     built = []
+    rejects = []
     for s in specs:
         st, g = guarded(lambda: build(s))
         sig = variant_sig(s['cls'], s['how'], s['variant'])
+        if s.get('expect_reject'):
+            # degenerate input the constructor must refuse (model: Cone.ctorRejects)
+            ctx.case(sig + ('reject',))
+            ctx.hit('construct/cone/rejects-parallel-src_to_det')
+            if not st.startswith('err:ValueError'):
+                ctx.violation('construct cone src_to_det_init parallel to axis is accepted',
+                              'ConeBeamGeometry(src_to_det_init={}, axis={}) -> {}; det_refpoint(0.3) = {}'.format(
+                                  s['s2d'], s.get('axis', [0, 0, 1]), st,
+                                  guarded(lambda: g.det_refpoint(0.3))[1] if st == 'ok' else None),
+                              {'kind': 'construct', 'spec': jsonable_spec(s)})
+            d = np.asarray(s['s2d'], dtype=float)
+            a = np.asarray(s.get('axis', [0.0, 0.0, 1.0]), dtype=float)
+            rejects.append((s, st, 'conector d={} ax={}'.format(vec(d / np.linalg.norm(d)), vec(a / np.linalg.norm(a)))))
+            continue
         if st != 'ok':
             ctx.case(None)
             ctx.violation(construct_key(s, st), 'constructor raised ' + st,
                           {'kind': 'construct', 'spec': jsonable_spec(s)})
             continue
+        ch = caller_arrays_changed()
+        if ch:
+            ctx.violation('construct {} modifies the caller\'s arrays how={}'.format(s['cls'], s['how']),
+                          'arrays handed to the constructor changed: before/after {}'.format(ch),
+                          {'kind': 'construct', 'spec': jsonable_spec(s)})
         stf, gf = guarded(lambda: geom_fields(s, g))
         if stf != 'ok':
             ctx.violation('attributes {}'.format(s['cls']), stf, {'kind': 'construct', 'spec': jsonable_spec(s)})
@@ -938,6 +1051,9 @@ def run_points(ctx, specs, npts):
             cases.append((s, g, ang, dp, r, sig, aligned))
             lines.append(line)
     run_frames(ctx, built)
+    for (s, st, _), ans in zip(rejects, core.run_driver('C19', [x[2] for x in rejects])):
+        if (ans == 'err:value') != st.startswith('err:ValueError'):
+            ctx.disagree({'kind': 'construct', 'spec': jsonable_spec(s)}, st, ans, stream='cone-ctor')
     outs = core.run_driver('C19', lines)
     for (s, g, ang, dp, r, sig, aligned), ans in zip(cases, outs):
         tol = TOL * (1 + scale_of(s, g, ang if not isinstance(ang, tuple) else 0.0)) * 4
@@ -945,6 +1061,12 @@ def run_points(ctx, specs, npts):
         ctx.case(sig + ('point',), sample={'case': desc, 'model': ans[:160]}
                  if len(ctx.samples) < 4 else None)
         ctx.hit('point/{}/{}/{}'.format(s['cls'], s['how'], s.get('det', 'flat')))
+        ctx.hit({'par2': 'model/rot/euler2', 'fan': 'model/rot/euler2', 'par3a': 'model/rot/axis',
+                 'cone': 'model/rot/axis'}.get(s['cls'], 'model/rot/euler3({} angles)'.format(s.get('neul'))))
+        if s.get('ssh'):
+            ctx.hit('model/shifts/' + s['cls'])
+        if s.get('pitch'):
+            ctx.hit('model/pitch')
         for rel, msg in oracle_point(s, g, ang, dp, r, tol):
             ctx.violation('{} {} how={} det={} flags={}'.format(
                 rel, s['cls'], s['how'], s.get('det', 'flat'), '+'.join(sorted(s['variant']))),
@@ -953,7 +1075,7 @@ def run_points(ctx, specs, npts):
         if not aligned:
             # the detector surface is the (reported) misaligned one: the model's closed form
             # of the detector rotation does not apply to the surface-dependent outputs
-            dis = [k for k in dis if k not in ('pos', 'd2s', 'd2sn')]
+            dis = [k for k in dis if k not in ('pos', 'd2s', 'd2sn', 'drv', 'nrm')]
         if dis:
             ctx.disagree(desc, {k: (r[k][0], np.asarray(r[k][1]).tolist() if r[k][1] is not None
                                     else None) for k in dis if k in r}, ans[:1500],
@@ -984,7 +1106,7 @@ DSHAPES = [(), (3,), (1,), (1, 4), (2, 3), (3, 1)]
 
 def rand_array(rng, lo, hi, shape):
     n = int(np.prod(shape)) if len(shape) else 1
-    vals = np.array([round(rng.uniform(lo, hi), 3) for _ in range(n)], dtype=float)
+    vals = np.clip(np.array([round(rng.uniform(lo, hi), 3) for _ in range(n)], dtype=float), lo, hi)
     return float(vals[0]) if shape == () else vals.reshape(shape)
 
 
@@ -1047,6 +1169,47 @@ def run_vector_case(s, g, m, d, mshapes, dshapes, method):
     return st, shape, problems
 
 
+def motion_only(ctx, s, g, nm, ndim):
+    """rotation_matrix, det_refpoint, src_position, det_axis/det_axes with array angles: shape
+    angle.shape + (trailing axes) and, entry by entry, the single-angle values"""
+    cls = s['cls']
+    meths = [('rotation_matrix', g.rotation_matrix, (ndim, ndim)), ('det_refpoint', g.det_refpoint, (ndim,))]
+    if cls in ('fan', 'cone'):
+        meths.append(('src_position', g.src_position, (ndim,)))
+    if cls in ('par2', 'fan'):
+        meths.append(('det_axis', g.det_axis, (ndim,)))
+    else:
+        meths.append(('det_axes', g.det_axes, (2, ndim)))
+    shapes = [(3,), (1,), (2, 3)] if not s.get('ssh') else [(3,), (1,)]
+    tol = TOL * (1 + scale_of(s, g, s['amax'])) * 4
+    for sh in shapes:
+        m = tuple(rand_array(ctx.rng, s['amin'], s['amax'], sh) for _ in range(nm))
+        arg = m if nm > 1 else m[0]
+        for name, f, trail in meths:
+            desc = {'kind': 'vector-m', 'spec': jsonable_spec(s), 'method': name,
+                    'm': [np.asarray(x).tolist() for x in m]}
+            ctx.case((cls, 'vector-m', name, sh))
+            ctx.hit('vector-m/' + name)
+            st, val = guarded(lambda: np.asarray(f(arg), dtype=float))
+            key = 'vectorised {} {} det={}'.format(name, cls, s.get('det', 'flat'))
+            if st != 'ok':
+                ctx.violation(key + ' raises', '{}(angles of shape {}) -> {}'.format(name, sh, st), desc)
+                continue
+            if val.shape != sh + trail:
+                ctx.violation(key + ' shape', '{}(angles of shape {}) has shape {} expected {}'.format(
+                    name, sh, val.shape, sh + trail), desc)
+                continue
+            flat = [np.asarray(x).ravel() for x in m]
+            out = val.reshape((-1,) + trail)
+            for i in range(out.shape[0]):
+                a = tuple(float(x[i]) for x in flat) if nm > 1 else float(flat[0][i])
+                st1, v1 = guarded(lambda: np.asarray(f(a), dtype=float))
+                if st1 != 'ok' or v1.shape != trail or not close(out[i], v1, tol):
+                    ctx.violation(key + ' entry', '{}(array)[{}] = {} but {}({}) = {}'.format(
+                        name, i, out[i].tolist(), name, a, v1.tolist() if st1 == 'ok' else st1), desc)
+                    break
+
+
 def run_vector(ctx, specs):
     rng = ctx.rng
     cases, lines = [], []
@@ -1058,6 +1221,7 @@ def run_vector(ctx, specs):
         ndim = 2 if cls in ('par2', 'fan') else 3
         nm = s['neul'] if cls == 'par3e' else 1
         nd = 1 if ndim == 2 else 2
+        motion_only(ctx, s, g, nm, ndim)
         combos = []
         for ms in MSHAPES:
             for ds in DSHAPES:
@@ -1096,6 +1260,9 @@ def run_vector(ctx, specs):
                               {'pos': 'det_point_position', 'd2s': 'det_to_src',
                                'd2sraw': 'det_to_src(normalized=False)'}[method], msg, mshapes, dshapes), desc)
         # model of the shape logic
+        ctx.hit('shape/ok' if ans.startswith('ok') else 'shape/err')
+        if klass == 'scalar':
+            ctx.hit('shape/scalar-squeeze')
         if ans.startswith('ok shape='):
             msh = tuple(int(x) for x in ans.split()[1][len('shape='):].split(',') if x != '-')
             if stv != 'ok' or shape != msh:
@@ -1156,7 +1323,7 @@ def run_getitem_case(s, slname, sl):
     angles = np.array(g.angles, dtype=float)
     poslog = {}
     if cls in ('par2', 'par3a'):
-        poslog['before'] = np.array(g.det_pos_init, dtype=float).copy()
+        poslog['before'] = np.append(np.array(g.det_pos_init, dtype=float), float(g.check_bounds))
     slices = []
     for k in (1, 2):
         st, sg = guarded(lambda: g[sl])
@@ -1165,8 +1332,8 @@ def run_getitem_case(s, slname, sl):
             break
         slices.append(sg)
         if cls in ('par2', 'par3a'):
-            poslog['after{}'.format(k)] = np.array(g.det_pos_init, dtype=float).copy()
-            poslog['slice{}'.format(k)] = np.array(sg.det_pos_init, dtype=float).copy()
+            poslog['after{}'.format(k)] = np.append(np.array(g.det_pos_init, dtype=float), float(g.check_bounds))
+            poslog['slice{}'.format(k)] = np.append(np.array(sg.det_pos_init, dtype=float), float(sg.check_bounds))
         st, after = guarded(lambda: snapshot(s, g, angles, dp))
         if st != 'ok' or not close(after, before, tol):
             problems.append(('slice#{} mutates receiver'.format(k),
@@ -1189,7 +1356,20 @@ def run_getitem_case(s, slname, sl):
                       'original gives {}'.format(slname, j, exp_angles[j], sv[j][:2 * ndim].tolist(),
                                                  before[sl][j][:2 * ndim].tolist())
             problems.append(('slice#{} evaluation'.format(k), msg))
+        if not g.check_bounds:
+            # a geometry without bounds checks evaluates outside its angle range; so must its slice
+            aout = float(g.motion_params.max_pt[0]) + 0.7
+            st1, v1 = guarded(lambda: g.det_refpoint(aout))
+            st2, v2 = guarded(lambda: sg.det_refpoint(aout))
+            if st1 == 'ok' and (st2 != 'ok' or not close(v1, v2, tol)):
+                problems.append(('slice#{} check_bounds'.format(k), 'geom.det_refpoint({}) = {} but '
+                                 'geom[{}].det_refpoint gives {}'.format(aout, np.asarray(v1).tolist(), slname,
+                                                                         st2 if st2 != 'ok' else np.asarray(v2).tolist())))
+        ch = caller_arrays_changed()
+        if ch:
+            problems.append(('slice#{} modifies the caller\'s arrays'.format(k), str(ch)))
         for nm, attr in (('det_partition', lambda x: x.det_partition),
+                         ('check_bounds', lambda x: (x.check_bounds, x.detector.check_bounds)),
                          ('class', lambda x: type(x).__name__)):
             if attr(sg) != attr(g):
                 problems.append(('slice#{} {}'.format(k, nm), '{} differs'.format(nm)))
@@ -1203,26 +1383,39 @@ def run_getitem_case(s, slname, sl):
     # model line for the position bookkeeping
     line = None
     tvec = np.asarray(s.get('t', [0.0] * ndim), dtype=float)
+    cbf = 0 if s.get('cb0') else 1
     if cls == 'par2':
         if s['how'] == 'frommatrix':
-            line = 'getitem2 how=frommatrix m={} t={}'.format(vec(np.array(s['Q'])), vec(tvec))
+            line = 'getitem2 how=frommatrix m={} t={} cb={}'.format(vec(np.array(s['Q'])), vec(tvec), cbf)
         else:
-            line = 'getitem2 how=ctor p={} t={}'.format(vec(s.get('pos', [0.0, 1.0])), vec(tvec))
+            line = 'getitem2 how=ctor p={} t={} cb={}'.format(vec(s.get('pos', [0.0, 1.0])), vec(tvec), cbf)
     if cls == 'par3a':
         dflt = np.asarray(g.det_pos_init, dtype=float) - tvec if 'pos' not in s else np.array([0., 1, 0])
         if s['how'] == 'frommatrix':
-            line = 'getitem3 how=frommatrix m={} dflt=0,1,0 t={} n=2'.format(vec(np.array(s['Q'])), vec(tvec))
+            line = 'getitem3 how=frommatrix m={} dflt=0,1,0 t={} n=2 cb={}'.format(vec(np.array(s['Q'])), vec(tvec), cbf)
         elif 'pos' in s:
-            line = 'getitem3 how=ctor p={} dflt=0,1,0 t={} n=2'.format(vec(s['pos']), vec(tvec))
+            line = 'getitem3 how=ctor p={} dflt=0,1,0 t={} n=2 cb={}'.format(vec(s['pos']), vec(tvec), cbf)
         else:
-            line = 'getitem3 how=ctor p=none dflt={} t={} n=2'.format(vec(poslog['before'] - tvec), vec(tvec))
+            line = 'getitem3 how=ctor p=none dflt={} t={} n=2 cb={}'.format(vec(poslog['before'][:3] - tvec), vec(tvec), cbf)
     return problems, line, poslog
 
 
 def run_getitem(ctx, specs):
     cases, lines = [], []
     for s in specs:
-        if s['cls'] == 'par3e' or s.get('ssh') and False:
+        if s.get('expect_reject'):
+            continue
+        if s['cls'] == 'par3e':
+            st, g = guarded(lambda: build(s))
+            if st != 'ok':
+                continue
+            st2, _ = guarded(lambda: g[1:3])
+            ctx.case(('par3e', 'getitem'))
+            ctx.hit('getitem/par3e')
+            if st2 != 'ok':
+                ctx.violation('getitem par3e {}'.format('not subscriptable' if 'subscriptable' in st2 else 'raises'),
+                              'Parallel3dEulerGeometry[1:3] -> ' + st2,
+                              {'kind': 'getitem3e', 'spec': jsonable_spec(s)})
             continue
         sls = SLICES if not ctx.quick else [ctx.rng.choice(SLICES)]
         for slname, sl in sls:
@@ -1234,7 +1427,11 @@ def run_getitem(ctx, specs):
             for part, msg in problems:
                 ctx.violation('getitem {} det={} translation={} pos={} how={} : {}'.format(
                     s['cls'], s.get('det', 'flat'), tr, pos_kind(s), s['how'], part), msg, desc)
+            if s.get('cb0'):
+                ctx.hit('getitem/check_bounds=False')
             if line is not None and poslog:
+                ctx.hit('getitem/model/{}/{}'.format(s['cls'], 'frommatrix' if s['how'] == 'frommatrix' else (
+                    'ctor' if s['cls'] == 'par2' else ('ctor-given' if 'pos' in s else 'ctor-derived'))))
                 cases.append((s, desc, poslog))
                 lines.append(line)
     outs = core.run_driver('C19', lines)
@@ -1243,17 +1440,19 @@ def run_getitem(ctx, specs):
         if ok:
             f = dict(t.split('=', 1) for t in ans.split()[1:])
             tol = 1e-12 * (1 + float(np.abs(poslog['before']).max()) * 4)
+            def st8(tok):   # "x,y(,z)/true|false" -> position entries + check_bounds flag
+                a, b = tok.rsplit('/', 1)
+                return [float(x) for x in core.pfl(a)] + [1.0 if b == 'true' else 0.0]
             if s['cls'] == 'par2':
                 got = [poslog.get('before'), poslog.get('after1'), poslog.get('slice1')]
-                exp = [f['before'], f['after'], f['slice']]
-                exp = [[float(x) for x in core.pfl(e)] for e in exp]
+                exp = [st8(f['before']), st8(f['after']), st8(f['slice'])]
             else:
                 steps = f['steps'].split('|')
-                exp = [[float(x) for x in core.pfl(f['before'])]]
+                exp = [st8(f['before'])]
                 got = [poslog.get('before')]
                 for k, stp in enumerate(steps, 1):
-                    a, b = stp.split(';')
-                    exp += [[float(x) for x in core.pfl(a)], [float(x) for x in core.pfl(b)]]
+                    a, b = stp.split('&')
+                    exp += [st8(a), st8(b)]
                     got += [poslog.get('after{}'.format(k)), poslog.get('slice{}'.format(k))]
             for gv, ev in zip(got, exp):
                 if gv is None or not close(gv, ev, tol):
@@ -1372,6 +1571,59 @@ Z_PATTERNS = ['below>above', 'above>below', 'touch-from-below', 'touch-from-abov
               'entirely-below', 'entirely-above']
 
 
+def helical_checks(ctx, g, space, lo, hi, rho, desc, key, lines, cases):
+    """vertical detector extent of helical_geometry: model tie of h, and the Tam-Danielsson data
+    sufficiency on the real code: every point of the volume near the axis stays inside the detector
+    over an angular range of at least n_pi * pi around the angle where the source passes its height."""
+    rs_, rd_ = float(g.src_radius), float(g.det_radius)
+    n_pi = 1
+    dmin = np.asarray(g.det_params.min_pt, dtype=float)
+    dmax = np.asarray(g.det_params.max_pt, dtype=float)
+    pt = float(g.pitch) / PI2
+    ang = n_pi * math.pi / 2 + math.atan(rho / rs_)
+    ctx.hit('factory/model/helh')
+    lines.append('factory kind=helh pt={} rho={} rs={} rd={} ang={}'.format(fs(pt), fs(rho), fs(rs_), fs(rd_), fs(ang)))
+    cases.append((desc, float(dmax[1]), float(-dmin[1]), 'helh', None))
+    th = np.linspace(float(g.motion_params.min_pt[0]), float(g.motion_params.max_pt[0]),
+                     int(360 * desc['num_turns']) + 1)
+    src = np.asarray(g.src_position(th), dtype=float)
+    ref = np.asarray(g.det_refpoint(th), dtype=float)
+    axs = np.asarray(g.det_axes(th), dtype=float)
+    nrm = np.cross(axs[:, 0], axs[:, 1])
+    zmid = (lo[2] + hi[2]) / 2
+    rc = 0.7 * rho * rs_ / math.hypot(rs_, rho)
+    pts = [(0.0, 0.0, zmid)] + [(rc * math.cos(al), rc * math.sin(al), zmid + dz)
+                               for al in (0.3, 1.9, 3.4, 5.0) for dz in (0.0, 0.1 * (hi[2] - lo[2]))]
+    dth = th[1] - th[0]
+    for q in pts:
+        q = np.array(q)
+        t = np.einsum('ij,ij->i', ref - src, nrm) / np.einsum('ij,ij->i', q - src, nrm)
+        hit = src + t[:, None] * (q - src)
+        u = np.einsum('ij,ij->i', hit - ref, axs[:, 0])
+        v = np.einsum('ij,ij->i', hit - ref, axs[:, 1])
+        inside = (u >= dmin[0]) & (u <= dmax[0]) & (v >= dmin[1]) & (v <= dmax[1])
+        # angle at which the source is at the height of the point
+        k0 = int(np.argmin(np.abs(src[:, 2] - q[2])))
+        if not inside[k0]:
+            seen = 0.0
+        else:
+            a = k0
+            while a > 0 and inside[a - 1]:
+                a -= 1
+            b = k0
+            while b < len(th) - 1 and inside[b + 1]:
+                b += 1
+            seen = (b - a) * dth
+            if a == 0 or b == len(th) - 1:
+                continue   # window cut off by the end of the scan: nothing to conclude
+        if seen < n_pi * math.pi - 2 * dth:
+            ctx.violation(key + ' Tam-Danielsson window', 'point {} is inside the detector {}..{} only over an '
+                          'angular range of {:.4f} < n_pi*pi around the angle {:.4f} where the source passes its '
+                          'height (pitch {}, src_radius {}, det_radius {})'.format(
+                              q.tolist(), dmin.tolist(), dmax.tolist(), seen, th[k0], g.pitch, rs_, rd_), desc)
+            break
+
+
 def factory_case(ctx, which, ndim, lines, cases, far=None):
     """far = one of Z_PATTERNS: cone-beam 3d case with the source far from the volume
     (src_radius >= 4 rho) and a volume of height <= rho placed asymmetrically along the axis;
@@ -1420,9 +1672,19 @@ def factory_case(ctx, which, ndim, lines, cases, far=None):
         ext = dmax - dmin
         angs = np.array(g.angles, dtype=float)
         pick = angs[np.unique(np.linspace(0, len(angs) - 1, 16).astype(int))]
+        # --- coverage of the volume corners.  With the documented formulas (F19c) the part that
+        # DOES hold is tested by itself, and the shortfall is measured against the largest one the
+        # documented formulas can produce, so that anything worse is a new violation.
         worst = np.zeros(len(dmin))
         wcase = [None] * len(dmin)
+        far_worst, far_case = 0.0, None
         for a in pick:
+            if which != 'parallel':
+                srcp = np.asarray(g.src_position(float(a)), dtype=float)
+                refp = np.asarray(g.det_refpoint(float(a)), dtype=float)
+                cdir = (refp - srcp)
+                cdir[2:] = 0
+                cdir = cdir / np.linalg.norm(cdir)
             for c in corners:
                 u = project(g, float(a), c)
                 over = np.maximum(u - dmax, dmin - u) / ext
@@ -1430,21 +1692,47 @@ def factory_case(ctx, which, ndim, lines, cases, far=None):
                     if over[i] > worst[i]:
                         worst[i] = over[i]
                         wcase[i] = (float(a), c.tolist(), u.tolist())
+                if which != 'parallel':
+                    # corners behind the rotation axis as seen from the source (xc >= 0) are
+                    # covered horizontally (C19.factory_covers_volume_fan_partial)
+                    if np.dot(c[:2], cdir[:2]) >= 0 and over[0] > far_worst:
+                        far_worst, far_case = over[0], (float(a), c.tolist(), u.tolist())
+        if far_worst > 1e-9:
+            ctx.violation(key + ' far-half coverage horizontal', 'volume corner {} behind the axis at angle {} '
+                          'is seen at {} outside {}..{}'.format(far_case[1], far_case[0], far_case[2],
+                                                                dmin.tolist(), dmax.tolist()), desc)
+        if which == 'parallel':
+            bound_h, bound_v = 0.0, 0.0
+        else:
+            rs_, rd_ = float(g.src_radius), float(g.det_radius)
+            # largest relative overshoot the documented width 2 rho (rs+rd)/rs can have
+            bound_h = (rs_ / math.sqrt(rs_ ** 2 - rho ** 2) - 1) / 2
+            zmx = max(abs(lo[2]), abs(hi[2])) if ndim == 3 else 0.0
+            # documented height: sin instead of tan of the half cone angle
+            bound_v = (math.hypot(rs_ - rho, zmx) / (rs_ - rho) - 1) / 2 if ndim == 3 else 0.0
         if worst[0] > 1e-9:
-            ctx.violation(key + ' coverage horizontal', 'volume corner {} at angle {} is seen at detector '
-                          'coordinate {} outside {}..{} (by {:.3g} of the width)'.format(
-                              wcase[0][1], wcase[0][0], wcase[0][2], dmin.tolist(), dmax.tolist(), worst[0]), desc)
+            known = which != 'parallel' and worst[0] <= bound_h * (1 + 1e-6) + 1e-9
+            ctx.violation(key + (' coverage horizontal' if known else ' coverage horizontal beyond the documented-formula shortfall'),
+                          'volume corner {} at angle {} is seen at detector '
+                          'coordinate {} outside {}..{} (by {:.3g} of the width; documented formula allows {:.3g})'.format(
+                              wcase[0][1], wcase[0][0], wcase[0][2], dmin.tolist(), dmax.tolist(), worst[0], bound_h), desc)
         if len(dmin) > 1 and worst[1] > 1e-9 and which != 'helical':
-            ctx.violation(key + ' coverage vertical', 'volume corner {} at angle {} is seen at detector '
-                          'coordinate {} outside {}..{} (by {:.3g} of the height)'.format(
-                              wcase[1][1], wcase[1][0], wcase[1][2], dmin.tolist(), dmax.tolist(), worst[1]), desc)
+            known = which == 'cone' and worst[1] <= bound_v * (1 + 1e-6) + 1e-9
+            ctx.violation(key + (' coverage vertical' if known else ' coverage vertical beyond the documented-formula shortfall'),
+                          'volume corner {} at angle {} is seen at detector '
+                          'coordinate {} outside {}..{} (by {:.3g} of the height; documented formula allows {:.3g})'.format(
+                              wcase[1][1], wcase[1][0], wcase[1][2], dmin.tolist(), dmax.tolist(), worst[1], bound_v), desc)
+        if which == 'helical':
+            helical_checks(ctx, g, space, lo, hi, rho, desc, key, lines, cases)
         # relations that hold for the code as it is (kept so that other defects stay visible)
         if which == 'parallel':
             hw = rho
             lines.append('factory kind=par rho={}'.format(fs(rho)))
+            ctx.hit('factory/model/par')
         else:
             hw = rho * (g.src_radius + g.det_radius) / g.src_radius
             lines.append('factory kind=fan rho={} rs={} rd={}'.format(fs(rho), fs(g.src_radius), fs(g.det_radius)))
+            ctx.hit('factory/model/fan')
             if abs(g.src_radius - desc['rs']) > 0 or abs(g.det_radius - desc['rd']) > 0:
                 ctx.violation(key + ' radii', 'radii {} {} requested {} {}'.format(
                     g.src_radius, g.det_radius, desc['rs'], desc['rd']), desc)
@@ -1507,6 +1795,7 @@ def factory_case(ctx, which, ndim, lines, cases, far=None):
             dist = g.src_radius - rho
             hyp = math.hypot(dist, zmax)
             delta = (g.src_radius + g.det_radius) / (g.src_radius + rho) * float(space.cell_sides[2])
+            ctx.hit('factory/model/coneh')
             lines.append('factory kind=coneh zmax={} hyp={} rs={} rd={}'.format(
                 fs(zmax), fs(hyp), fs(g.src_radius), fs(g.det_radius)))
             cases.append((desc, float(dmax[1]), float(-dmin[1]), None, delta))
@@ -1536,7 +1825,14 @@ def run_factories(ctx):
             factory_case(ctx, 'cone', 3, lines, cases, far=pat)
     outs = core.run_driver('C19', lines)
     for (desc, hmax, hmin, hw, delta), ans in zip(cases, outs):
-        if delta is None:
+        if hw == 'helh':
+            ok = ans.startswith('ok hh=')
+            if ok:
+                m = float(core.pfrac(ans[len('ok hh='):]))
+                ok = abs(m - hmax) <= 1e-12 * (1 + m) and abs(m - hmin) <= 1e-12 * (1 + m)
+            if not ok:
+                ctx.disagree(desc, (hmin, hmax), ans, stream='factory-helical-halfheight')
+        elif delta is None:
             ok = ans.startswith('ok hw=')
             if ok:
                 m = float(core.pfrac(ans[len('ok hw='):]))
@@ -1595,6 +1891,7 @@ def run_detectors(ctx):
         a = gen_vec(ctx.rng, 2, generic=ctx.rng.random() < 0.7)
         desc = {'kind': 'detector', 'det': 'circ', 'axes': [a]}
         ctx.case(('circ', 'alignment', tuple(np.sign(a))))
+        ctx.hit('detector/circ')
         st, det = guarded(lambda: D.CircularDetector(part1, axis=a, radius=1.5))
         st2, al = guarded(lambda: curved_alignment(det)) if st == 'ok' else (st, None)
         if st2 != 'ok':
@@ -1637,6 +1934,36 @@ def run(ctx):
     stream(ctx, 'frommatrix', run_frommatrix, specs)
     stream(ctx, 'factories', run_factories)
     stream(ctx, 'detectors', run_detectors)
+    unhit = [b for b in MODEL_BRANCHES if not ctx.branches.get(b)]
+    ctx.extra['unhit_model_branches'] = unhit
+    if unhit:
+        ctx.notes.append('model branches not exercised in this run: {}'.format(unhit))
+        if not ctx.quick:
+            ctx.violation('coverage: model branches not exercised', str(unhit), {'kind': 'coverage'})
+
+
+# every branch of the model functions the driver executes (constructor of the inductive types,
+# rotation kind, driver op, outcome); the harness must hit each of them in every run
+MODEL_BRANCHES = (
+    ['point/{}/ctor/flat'.format(c) for c in ('par2', 'par3a', 'par3e', 'fan', 'cone')]
+    + ['point/{}/frommatrix/flat'.format(c) for c in ('par2', 'par3a', 'par3e', 'fan', 'cone')]
+    + ['point/fan/ctor/circ', 'point/cone/ctor/cyl', 'point/cone/ctor/sph',
+       'point/fan/frommatrix/circ', 'point/cone/frommatrix/cyl', 'point/cone/frommatrix/sph',
+       'model/rot/euler2', 'model/rot/euler3(2 angles)', 'model/rot/euler3(3 angles)', 'model/rot/axis',
+       'model/shifts/fan', 'model/shifts/cone', 'model/pitch',
+       'construct/cone/rejects-parallel-src_to_det',
+       'frame/par2', 'frame/fan', 'frame/par3a', 'frame/par3e', 'frame/cone', 'frame/opposite(oracle only)',
+       'frame/near-default', 'frame/near-opposite',
+       'shape/ok', 'shape/err', 'shape/scalar-squeeze',
+       'getitem/par2', 'getitem/par3a', 'getitem/fan', 'getitem/cone', 'getitem/par3e',
+       'getitem/model/par2/ctor', 'getitem/model/par2/frommatrix', 'getitem/model/par3a/ctor-given',
+       'getitem/model/par3a/ctor-derived', 'getitem/model/par3a/frommatrix', 'getitem/check_bounds=False',
+       'factory/parallel/2d', 'factory/parallel/3d', 'factory/cone/2d', 'factory/cone/3d',
+       'factory/helical/3d', 'factory/model/par', 'factory/model/fan', 'factory/model/coneh',
+       'factory/model/helh']
+    + ['factory/cone/3d/z-' + z for z in Z_PATTERNS]
+    + ['detector/cyl', 'detector/sph', 'detector/circ', 'vector-m/rotation_matrix', 'vector-m/det_refpoint',
+       'vector-m/src_position', 'vector-m/det_axis', 'vector-m/det_axes'])
 
 
 def search(ctx, broken):
@@ -1711,6 +2038,17 @@ def replay(ctx, case):
             det = klass(odl.uniform_partition([-1, -1], [1, 1], (4, 4)), axes=case['axes'], radius=2.5)
         st, al = guarded(lambda: curved_alignment(det))
         return None if st == 'ok' and al[0] else str(al[1] if st == 'ok' else st)
+    if kind == 'getitem3e':
+        st, g = guarded(lambda: build(case['spec']))
+        st2, _ = guarded(lambda: g[1:3])
+        return None if st2 == 'ok' else st2
+    if kind == 'vector-m':
+        s = case['spec']
+        st, g = guarded(lambda: build(s))
+        if st != 'ok':
+            return 'constructor raised ' + st
+        motion_only(tmp, s, g, s.get('neul', 1) if s['cls'] == 'par3e' else 1, 2 if s['cls'] in ('par2', 'fan') else 3)
+        return '; '.join(v['what'] for v in tmp.violations) if tmp.violations else None
     if kind == 'factory':
         return 'factory cases are regenerated from the seed; rerun ./check C19'
     return None
